@@ -90,6 +90,8 @@ pub struct Plan {
     pub with_ctx: bool,
     pub sanitize: bool,
     pub limit: bool,
+    /// stop timeout in ms (None: 10 s). 0 makes the stop poll give up although the stop takes effect
+    pub stop_timeout_ms: Option<u64>,
 }
 
 /// Post-state monitor + signal conservation after a dump returned / unwound.
@@ -128,7 +130,9 @@ fn judge_after(rep: &mut Report, t: &Target, sender: &Sender, plan: &Plan, outco
         if all {
             break;
         }
-        if t0.elapsed().as_secs() > 20 {
+        // the writer sends SIGCONT before it returns: a thread still in a stop state after 5 s
+        // (with nothing to wake it) is stuck; heartbeats alone get the longer watchdog
+        if t0.elapsed().as_secs() > 20 || (!stuck.is_empty() && t0.elapsed().as_secs() > 5) {
             break;
         }
         std::thread::sleep(std::time::Duration::from_micros(300));
@@ -248,7 +252,7 @@ pub fn run(rep: &mut Report, thorough: bool) {
 
     // ---- plan list
     let mut plans: Vec<Plan> = Vec::new();
-    let base = Plan { place: Where::None, signals: Vec::new(), group_stop: true, dest_fault: None, hard_error: 0, with_ctx: false, sanitize: false, limit: false };
+    let base = Plan { place: Where::None, signals: Vec::new(), group_stop: true, dest_fault: None, hard_error: 0, with_ctx: false, sanitize: false, limit: false, stop_timeout_ms: None };
     // fault-free run to learn N
     let n_calls = {
         let mut d = Dest::plain();
@@ -274,6 +278,12 @@ pub fn run(rep: &mut Report, thorough: bool) {
         for gs in [true, false] {
             plans.push(Plan { hard_error: he, group_stop: gs, with_ctx: he == 2, ..base.clone() });
         }
+    }
+    // the stop poll gives up (timeout 0 / 1 ms) although SIGSTOP was sent and takes effect
+    for st in [0u64, 0, 1, 0] {
+        plans.push(Plan { stop_timeout_ms: Some(st), ..base.clone() });
+        plans.push(Plan { stop_timeout_ms: Some(st), dest_fault: Some((7, Fault::Error)), ..base.clone() });
+        plans.push(Plan { stop_timeout_ms: Some(st), place: Where::ThreadsSuspended, signals: vec![10, 34], ..base.clone() });
     }
     let places = vec![Where::BeforeAttach, Where::Attached, Where::AfterAttach, Where::ThreadsSuspended, Where::Flushed(1), Where::Flushed(9), Where::Flushed(17), Where::BeforeResume, Where::BeforeDetach, Where::AfterResume, Where::ThreadsEnumerated];
     let reps = if thorough { 6 } else { 1 };
@@ -313,6 +323,9 @@ pub fn run(rep: &mut Report, thorough: bool) {
         }
         if !plan.group_stop {
             o.failspots.push("StopProcess".into());
+        }
+        if let Some(ms) = plan.stop_timeout_ms {
+            o.stop_timeout_ms = Some(ms);
         }
         if plan.with_ctx || plan.hard_error == 2 {
             let s = &b.sentinels[0];
@@ -456,9 +469,80 @@ pub fn run(rep: &mut Report, thorough: bool) {
         }
     }
     rep.count("signal_send_errors", sender.send_errors.load(Ordering::SeqCst));
+    exited_leader(rep, &mut rng, if thorough { 8 } else { 3 });
     rep.require("post_state_checks", 20);
     rep.require("destination_faults_hit", 20);
     rep.require("signals_accounted", 20);
     rep.require("reinjections_observed", 1);
     rep.require("dumps_unwound_by_destination_panic", 5);
+}
+
+
+/// A target whose thread-group leader has exited: /proc/<pid>/stat stays `Z`, so the stop poll
+/// can never see `T` although the SIGSTOP it sent does stop the live threads.
+fn exited_leader(rep: &mut Report, rng: &mut Rng, n: usize) {
+    for k in 0..n {
+        let mut b = Builder::new();
+        b.sentinel(rng, Mode::Pause, &StackShape::default(), None, None);
+        let hb0 = b.spec.threads.len();
+        for _ in 0..2 {
+            b.thread(ThreadKind::Heartbeat, None);
+        }
+        b.spec.leader_exit = true;
+        let t = match Target::spawn(b.spec.clone(), &b.opts) {
+            Ok(t) => t,
+            Err(e) => {
+                rep.inconclusive(format!("exited-leader target did not start: {e}"));
+                continue;
+            }
+        };
+        let t0 = std::time::Instant::now();
+        while t.thread_status(t.pid).map(|s| s.0) != Some('Z') && t0.elapsed().as_secs() < 20 {
+            std::thread::sleep(std::time::Duration::from_millis(1));
+        }
+        let worker = t.manifest.tids[hb0];
+        let mut o = DumpOpts::new(t.pid, worker);
+        o.stop_timeout_ms = Some(if k % 2 == 0 { 30 } else { 0 });
+        let before: Vec<u64> = (hb0..hb0 + 2).map(|i| t.ctl.slot(i, SLOT_HEARTBEAT)).collect();
+        let out = {
+            let _g = dump::DUMP_LOCK.lock().unwrap_or_else(|e| e.into_inner());
+            dump::dump(&o).0
+        };
+        let outcome = match &out {
+            Outcome::Ok(_) => "ok".to_string(),
+            Outcome::Err(e) => format!("err: {}", e.chars().take(80).collect::<String>()),
+            Outcome::Panic { location, .. } => format!("panic at {location}"),
+        };
+        rep.case(fnv(format!("exited-leader/{k}").as_bytes()), true);
+        rep.count("exited_leader_post_state_checks", 1);
+        let case = json!({"scenario": "thread-group leader exited (stop poll cannot succeed)", "stop_timeout_ms": o.stop_timeout_ms, "outcome": outcome});
+        for tid in &t.manifest.tids {
+            if let Some((_, tracer, _, _)) = t.thread_status(*tid) {
+                if tracer != 0 {
+                    rep.violation("C03 thread still ptrace-attached after the dump returned Ok", json!({"case": case, "tid": tid}));
+                }
+            }
+        }
+        let t0 = std::time::Instant::now();
+        let mut stuck: Vec<(i32, char)> = Vec::new();
+        loop {
+            stuck.clear();
+            let mut all = (0..2).all(|j| t.ctl.slot(hb0 + j, SLOT_HEARTBEAT) >= before[j] + 2);
+            for tid in &t.manifest.tids {
+                if let Some((st, _, _, _)) = t.thread_status(*tid) {
+                    if st == 't' || st == 'T' {
+                        all = false;
+                        stuck.push((*tid, st));
+                    }
+                }
+            }
+            if all || t0.elapsed().as_secs() > 20 {
+                break;
+            }
+            std::thread::sleep(std::time::Duration::from_micros(300));
+        }
+        if !stuck.is_empty() {
+            rep.violation("C03 thread left stopped after the dump", json!({"case": case, "threads_in_stop_state": stuck}));
+        }
+    }
 }
